@@ -25,6 +25,7 @@
 
 #include <bitset>
 #include <cstdarg>
+#include <memory>
 #include <string>
 
 #ifndef C17_WIDTHS
@@ -121,11 +122,17 @@ auto judge(char const* name, Snap const& e, Snap const& r) -> std::string
 // ------------------------------------------------------------------ ops
 enum Code : std::uint32_t {
     SET_ALL, RESET_ALL, FLIP_ALL, SET_POS, RESET_POS, FLIP_POS, REF_ASSIGN_BOOL, REF_ASSIGN_REF, REF_FLIP, REF_NOT, AND_ASSIGN, OR_ASSIGN, XOR_ASSIGN, NOT, AND, OR, XOR, EQ, CTOR_ULL, COPY, OBSERVE, CTOR_STRING, CTOR_CSTR,
-    SWAP, CTOR_STRING_CI, CTOR_STRING_W, CTOR_STRING_U16, // appended later: the numbers of the older codes are used by the replay corpus
+    SWAP, CTOR_STRING_CI, CTOR_STRING_W, CTOR_STRING_U16, CTOR_RAW, // appended later: the numbers of the older codes are used by the replay corpus
     NCODES
 };
 char const* const code_names[] = {"set()", "reset()", "flip()", "set(pos,v)", "reset(pos)", "flip(pos)", "b[i]=v", "b[i]=c[j]", "b[i].flip()", "~b[i]", "&=", "|=", "^=", "~", "&", "|", "^", "==", "ctor(ull)", "copy-assign", "observe",
-    "ctor(string_view,pos,n,zero,one)", "ctor(char const*,n,zero,one)", "swap", "ctor(basic_string_view<char,case-insensitive traits>,pos,n,'N','y')", "ctor(wstring_view,pos,n,zero,one)", "ctor(u16string_view,pos,n,zero,one)"};
+    "ctor(string_view,pos,n,zero,one)", "ctor(char const*,n,zero,one)", "swap", "ctor(basic_string_view<char,case-insensitive traits>,pos,n,'N','y')", "ctor(wstring_view,pos,n,zero,one)", "ctor(u16string_view,pos,n,zero,one)",
+    "ctor(exact-size buffer,n,extreme zero/one) + to_string(zero,one)"};
+
+// digit pairs made of extreme code units: CharT(0) as zero or as one (so the text contains NULs and is not a C string),
+// 0xFF / 0x80, and for wchar_t values above 0xFFFF
+constexpr char raw_pairs_c[6][2]    = {{'\0', '\1'}, {'\1', '\0'}, {'\0', '\xff'}, {'\xff', '\0'}, {'\x80', '\x7f'}, {'0', '\0'}};
+constexpr wchar_t raw_pairs_w[6][2] = {{L'\0', L'\1'}, {L'\1', L'\0'}, {L'\0', static_cast<wchar_t>(0x10FFFF)}, {static_cast<wchar_t>(0x1F600), L'\0'}, {static_cast<wchar_t>(0x10000), static_cast<wchar_t>(0xFFFF)}, {L'0', L'\0'}};
 
 // character traits whose eq() is coarser than ==: the string constructors must compare with Traits::eq
 constexpr auto ci_lower(char c) -> char { return (c >= 'A' && c <= 'Z') ? static_cast<char>(c - 'A' + 'a') : c; }
@@ -348,6 +355,38 @@ struct Width {
 
         static auto check(char const* name, T& x, Ref const& m, bool full) -> std::string { return judge(name, snap_etl<A>(x, m, full), snap_ref(m, full)); }
 
+        // Pointer / view constructor from a heap buffer of EXACTLY n characters (no terminator: a read past n is an ASan
+        // error) whose digits are an extreme pair, then to_string with the same pair; both against std::bitset.
+        template <typename CharT>
+        static auto raw_ctor(RawOp const& op, T& x, Ref& mx, CharT zero, CharT one, bool via_view) -> std::string
+        {
+            auto const len = pick_len(op.b, N);
+            std::unique_ptr<CharT[]> buf(new CharT[len]);
+            for (std::size_t q = 0; q < len; ++q) {
+                bool const bit = len > 32 ? ((splitmix(op.a + 977U * (q / 64)) >> (q % 64)) & 1U) != 0 : ((op.a >> q) & 1U) != 0;
+                buf[q]         = bit ? one : zero;
+            }
+            if (via_view) {
+                etl::basic_string_view<CharT> const sv(buf.get(), len);
+                x  = T(sv, 0, len, zero, one);
+                mx = Ref(std::basic_string<CharT>(buf.get(), len), 0, len, zero, one);
+            } else {
+                x  = T(buf.get(), len, zero, one);
+                mx = Ref(buf.get(), len, zero, one);
+            }
+            T const& cx = x;
+            for (std::size_t q = 0; q < N; ++q) {
+                if (A::test(cx, q) != mx.test(q)) { return ""; } // the constructor itself is wrong: the comparison after the op reports the bits
+            }
+            auto const t = cx.template to_string<N, CharT>(zero, one);
+            auto const w = mx.template to_string<CharT>(zero, one);
+            if (t.size() != w.size()) { return fmt("to_string(zero=%ld, one=%ld) has size %zu, std::bitset's has %zu", static_cast<long>(zero), static_cast<long>(one), static_cast<std::size_t>(t.size()), w.size()); }
+            for (std::size_t q = 0; q < w.size(); ++q) {
+                if (t.data()[q] != w[q]) { return fmt("to_string(zero=%ld, one=%ld) differs from std::bitset's at character %zu (%ld, expected %ld)", static_cast<long>(zero), static_cast<long>(one), q, static_cast<long>(t.data()[q]), static_cast<long>(w[q])); }
+            }
+            return "";
+        }
+
         // string constructor from a view of wide characters (default traits), same text as the char version
         template <typename CharT>
         static auto wide_ctor(RawOp const& op, T& x, Ref& mx, Flags& fl) -> void
@@ -388,7 +427,7 @@ struct Width {
                 Ref& mx       = tb ? mb : ma;
                 Ref& my       = tb ? ma : mb;
                 auto code     = op.code % NCODES;
-                if (!A::full_api && (code == CTOR_STRING || code == CTOR_CSTR || code == CTOR_STRING_CI || code == CTOR_STRING_W || code == CTOR_STRING_U16)) { code = CTOR_ULL; } // basic_bitset has no string constructors
+                if (!A::full_api && (code == CTOR_STRING || code == CTOR_CSTR || code == CTOR_STRING_CI || code == CTOR_STRING_W || code == CTOR_STRING_U16 || code == CTOR_RAW)) { code = CTOR_ULL; } // basic_bitset has no string constructors
                 std::size_t const i = op.a % N;
                 std::size_t const j = op.b % N;
                 bool const v        = (op.b & 1U) != 0;
@@ -604,6 +643,20 @@ struct Width {
                 }
                 case CTOR_STRING_U16: {
                     if constexpr (A::full_api) { wide_ctor<char16_t>(op, x, mx, fl); }
+                    break;
+                }
+                case CTOR_RAW: {
+                    if constexpr (A::full_api) {
+                        auto const modes = op.c >> 1; // digit pair 0..5 x {char, wchar_t} x {pointer + n, view}
+                        auto const pi    = modes % 6U;
+                        bool const view  = ((modes / 12U) % 2U) != 0;
+                        if ((modes / 6U) % 2U == 0) {
+                            err = raw_ctor<char>(op, x, mx, raw_pairs_c[pi][0], raw_pairs_c[pi][1], view);
+                        } else {
+                            err = raw_ctor<wchar_t>(op, x, mx, raw_pairs_w[pi][0], raw_pairs_w[pi][1], view);
+                        }
+                        fl.strings = true;
+                    }
                     break;
                 }
                 case OBSERVE: break;
@@ -961,6 +1014,7 @@ void enum_values_x_ops(vf::Ctx& c, std::uint32_t ci, std::uint64_t& n)
                             if (modes < 12) { one({}, RawOp{CTOR_STRING_CI, bits, b, modes << 1}); } // user-defined traits; zero/one are fixed to 'N'/'y'
                             one({}, RawOp{CTOR_STRING_W, bits, b, modes << 1});
                             one({}, RawOp{CTOR_STRING_U16, bits, b, modes << 1});
+                            if (modes < 24) { one({}, RawOp{CTOR_RAW, bits, b, modes << 1}); } // 6 extreme digit pairs x {char, wchar_t} x {pointer + n, view}
                         }
                     }
                 }
@@ -1010,6 +1064,7 @@ void fixed_cases(vf::Ctx& c)
             {{FLIP_ALL, 0, 0, 0}, {NOT, 0, 0, 0}, {EQ, 0, 0, 0}, {XOR_ASSIGN, 0, 0, 0}, {FLIP_ALL, 0, 0, 1}, {OR_ASSIGN, 0, 0, 0}},
             {{CTOR_ULL, 1, 0, 0}, {CTOR_ULL, 3, 12345, 1}, {AND, 0, 0, 0}, {NOT, 0, 0, 0}, {XOR, 0, 0, 1}},
             {{CTOR_STRING, 0xFFFFFFFFU, 2, 0}, {CTOR_CSTR, 0x55555555U, 2, 1}, {EQ, 0, 0, 0}, {CTOR_STRING, 1, 1, 0}, {CTOR_STRING, 1, 3, 2 << 1}},
+            {{CTOR_RAW, 0x9A, 2, 0}, {CTOR_RAW, 0xC3C3C3C3U, 2, (1 + 6) << 1}, {CTOR_RAW, 0x5A5A5A5AU, 3, (3 + 12) << 1}, {CTOR_RAW, 7, 2, (2 + 18) << 1}, {CTOR_RAW, 1, 0, 5 << 1}, {CTOR_RAW, 0xFFFFFFFFU, 2, (5 + 6) << 1}},
             {{CTOR_STRING_CI, 0xA5A5A5A5U, 2, 0}, {CTOR_STRING_W, 0x0F0F0F0FU, 2, 1}, {EQ, 0, 0, 0}, {CTOR_STRING_U16, 0x33333333U, 3, (4 + 12) << 1}, {CTOR_STRING_CI, 3, 2, 5 << 1}},
             {{CTOR_ULL, 1, 0, 0}, {AND_ASSIGN, 0, 0, 2}, {OR_ASSIGN, 0, 0, 2}, {COPY, 0, 0, 2}, {SWAP, 0, 0, 2}, {XOR_ASSIGN, 0, 0, 2}, {SWAP, 0, 0, 0}},
         };
